@@ -100,6 +100,12 @@ You can provide input either as a file (as the first argument) or by piping logs
 				os.Exit(1)
 			}
 
+			// Validation: Atlas key or date flags alone do not name a cluster to read from
+			if atlasParamsSet && atlasProjectId == "" && atlasClusterName == "" {
+				fmt.Fprintln(os.Stderr, "Error: Atlas parameters require both --atlasProjectId and --atlasClusterName.")
+				os.Exit(1)
+			}
+
 			// Validation: Atlas params and positional input are mutually exclusive
 			if atlasParamsSet && len(args) == 1 {
 				fmt.Fprintln(os.Stderr, "Error: Cannot provide both Atlas parameters and an input file. Please use only one input source.")
